@@ -76,13 +76,24 @@ type run struct {
 	hits       int // violations noticed, repeats of a reported one included
 	nontrivial bool
 
-	// results of earlier calls by source list, for same-on-every-call
+	// results of earlier calls by source list, for same-on-every-call (since
+	// the filter table last changed)
 	earlier map[string]result
+
+	// patterns removed by SetFilter(p, nil) after the converter had been used
+	// (and not set again since)
+	removed map[string]bool
+	edited  bool // some SetFilter call was made after the converter had been used
 }
+
+// minFDLimit is the smallest descriptor budget a case may have: far more than
+// one call (one handle at a time) or a few overlapping calls can need.
+const minFDLimit = 8
 
 // Run implements simkit.Engine.
 func (Engine) Run(t *testing.T, job *simkit.Job, rng *simkit.RNG, idx int64, c *simkit.Case) *simkit.Outcome {
-	r := &run{job: job, probes: map[string]int64{}, seen: map[string]bool{}, earlier: map[string]result{}}
+	r := &run{job: job, probes: map[string]int64{}, seen: map[string]bool{}, earlier: map[string]result{},
+		removed: map[string]bool{}}
 	r.reps = 2
 	if c != nil {
 		r.reps = 10
@@ -168,11 +179,22 @@ func (r *run) execute() {
 		r.logf("config not usable: %v", err)
 		return
 	}
-	r.logf("config base=%s iface=%s real=%v add_list=%v table=%s", r.cfg.Base, r.cfg.Iface, r.cfg.Real,
-		r.cfg.AddList, r.tableString())
+	r.logf("config base=%s iface=%s real=%v add_list=%v fd_limit=%d table=%s", r.cfg.Base, r.cfg.Iface, r.cfg.Real,
+		r.cfg.AddList, r.cfg.FDLimit, r.tableString())
 
 	// 1. the tree
 	r.fs = newSimFS()
+	if r.cfg.FDLimit != 0 {
+		if r.cfg.FDLimit < minFDLimit {
+			r.invalid = true
+			r.logf("descriptor budget %d is below %d", r.cfg.FDLimit, minFDLimit)
+			return
+		}
+		if !r.cfg.Real {
+			r.fs.limit = r.cfg.FDLimit
+			r.probes["fd_budget_runs"]++
+		}
+	}
 	var calls []Action
 	var faults []Action
 	for i, a := range r.actions {
@@ -192,7 +214,7 @@ func (r *run) execute() {
 			}
 		case "fault":
 			faults = append(faults, a)
-		case "call":
+		case "call", "filter", "overlap":
 			calls = append(calls, a)
 		default:
 			r.invalid = true
@@ -254,13 +276,275 @@ func (r *run) execute() {
 	// 4. the calls
 	for i, a := range calls {
 		simkit.Heartbeat.Add(1)
-		r.call(i, a.Sources)
+		switch a.Op {
+		case "call":
+			r.call(i, a.Sources)
+		case "filter":
+			r.setFilter(i, a)
+		case "overlap":
+			r.overlap(i, a)
+		}
 		if r.invalid || r.harnessErr != "" {
 			return
 		}
 	}
 	if r.fs.opens != r.fs.closes {
 		r.probes["handles_left_open"] += r.fs.opens - r.fs.closes
+	}
+	if r.fs.peak >= 2 {
+		if r.probes["overlap_steps"] > 0 {
+			r.probes["two_or_more_handles_open_at_once_with_overlap"]++
+		} else {
+			r.probes["two_or_more_handles_open_at_once_without_overlap"]++
+		}
+	}
+}
+
+// setFilter performs one "filter" item: a SetFilter call on the converter in
+// use, which the reference table follows.
+func (r *run) setFilter(i int, a Action) {
+	if a.Filter == nil || r.cfg.Base == "zero" {
+		// (the zero converter has no table to edit: SetFilter needs the map
+		// NewDefaultConverter makes)
+		r.invalid = true
+		r.logf("step %d %s :: NOT APPLICABLE", i, a)
+		return
+	}
+	op := *a.Filter
+	_, had := r.tab.kind[op.P]
+	if err := r.tab.apply(op); err != nil {
+		r.invalid = true
+		r.logf("step %d %s :: %v", i, a, err)
+		return
+	}
+	r.tab.resort()
+	r.conv.SetFilter(op.P, makeFilter(op))
+	used := r.steps > 0
+	what := ""
+	switch {
+	case op.K == fkDel && had:
+		what = "removed"
+		if used {
+			r.removed[op.P] = true
+		}
+	case op.K == fkDel:
+		what = "removed_absent"
+	case had:
+		what = "replaced"
+		delete(r.removed, op.P)
+	default:
+		what = "added"
+		delete(r.removed, op.P)
+	}
+	if used {
+		r.edited = true
+		r.probes["filter_"+what+"_after_use"]++
+	} else {
+		r.probes["filter_"+what+"_before_use"]++
+	}
+	// what was returned under the old table says nothing about the new one
+	r.earlier = map[string]result{}
+	r.logf("step %d filter %q=%s (%s) table=%s", i, op.P, op.K, what, r.tableString())
+}
+
+// afterEdit counts the calls that follow an edit of the table of a converter
+// which had been used before.
+func (r *run) afterEdit(models []*srcModel) {
+	if !r.edited {
+		return
+	}
+	r.probes["calls_after_filter_edit"]++
+	if len(r.removed) == 0 {
+		return
+	}
+	r.probes["calls_after_filter_removal"]++
+	for _, m := range models {
+		for _, e := range m.entries {
+			if e.nested || e.dot || e.n.kind != kFile {
+				continue
+			}
+			for _, p := range simkit.SortedKeys(r.removed) {
+				if ok, _ := path.Match(p, e.name); ok {
+					r.probes["file_of_removed_pattern_in_called_dir"]++
+					break
+				}
+			}
+		}
+	}
+}
+
+// fromCounted makes a call alone, counting its FS operations.
+func (r *run) fromCounted(sources []string) (result, int) {
+	l := &legState{}
+	r.fs.cur = l
+	res := r.from(sources)
+	r.fs.cur = nil
+	return res, l.ops
+}
+
+// overlap performs one "overlap" item: every leg alone first (judged like any
+// call, and counted), then all of them again overlapping in time.  A leg
+// parks inside the simulated FS; while it is held there the next leg is
+// started, and so on; then the parked legs are let go one by one.  Only one
+// goroutine runs at any time and every hand-over is a channel operation, so
+// the interleaving is exactly the one the item names.
+func (r *run) overlap(i int, a Action) {
+	if r.cfg.Real || len(a.Legs) == 0 || len(a.Legs) > 4 {
+		r.invalid = true
+		r.logf("step %d %s :: NOT APPLICABLE", i, a)
+		return
+	}
+	type legRun struct {
+		leg    Leg
+		models []*srcModel
+		alone  result
+		n      int
+		st     *legState
+	}
+	var legs []*legRun
+	for j, lg := range a.Legs {
+		if len(lg.Sources) == 0 || lg.Park < 0 {
+			r.invalid = true
+			return
+		}
+		lr := &legRun{leg: lg}
+		for _, s := range lg.Sources {
+			m, ok := r.model(s)
+			if !ok {
+				r.invalid = true
+				r.logf("step %d overlap leg %d %q :: source %q is neither a directory nor a regular file of the tree", i, j, lg.Sources, s)
+				return
+			}
+			lr.models = append(lr.models, m)
+		}
+		legs = append(legs, lr)
+	}
+	r.probes["overlap_steps"]++
+	// ---- every leg alone
+	for j, lr := range legs {
+		lr.alone, lr.n = r.fromCounted(lr.leg.Sources)
+		r.logf("step %d overlap leg %d %q alone -> %s%s ops=%d", i, j, lr.leg.Sources, lr.alone, r.errText(lr.alone), lr.n)
+		r.afterEdit(lr.models)
+		r.judge(lr.leg.Sources, lr.models, lr.alone, true)
+		key := strings.Join(lr.leg.Sources, "\x00")
+		if old, ok := r.earlier[key]; ok && !same(old, lr.alone) {
+			r.violate(invSameEachCall, "an identical later call differs",
+				"sources %q: earlier %s, now %s", lr.leg.Sources, old, lr.alone)
+		}
+		r.earlier[key] = lr.alone
+		if lr.n < 1 {
+			r.harnessErr = fmt.Sprintf("overlap leg %d made no FS operation", j)
+			return
+		}
+	}
+	// ---- all legs overlapping
+	var parked []int
+	start := func(j int) {
+		lr := legs[j]
+		st := &legState{event: make(chan int), resume: make(chan struct{})}
+		if lr.leg.Park > 0 {
+			st.parkAt = 1 + (lr.leg.Park-1)%lr.n
+		}
+		lr.st = st
+		srcs := lr.leg.Sources
+		r.steps++
+		r.fs.cur = st
+		go func() {
+			defer func() {
+				if p := recover(); p != nil {
+					st.panicv = fmt.Sprintf("panic: %v\n%s", p, debug.Stack())
+				}
+				st.event <- evDone
+			}()
+			b, err := r.conv.From(srcs...)
+			st.res = result{b: b, err: err}
+		}()
+	}
+	wait := func(j int) {
+		st := legs[j].st
+		switch <-st.event {
+		case evParked:
+			parked = append(parked, j)
+			r.logf("step %d overlap leg %d parked at FS operation %d of %d; open handles %d", i, j, st.parkAt, legs[j].n,
+				r.fs.opens-r.fs.closes)
+		case evDone:
+			if len(parked) > 0 {
+				r.probes["overlap_call_completed_while_another_parked"]++
+			}
+			r.logf("step %d overlap leg %d returned -> %s%s", i, j, st.res, r.errText(st.res))
+		}
+		r.fs.cur = nil
+	}
+	for j := range legs {
+		simkit.Heartbeat.Add(1)
+		start(j)
+		wait(j)
+	}
+	if len(parked) >= 2 {
+		r.probes["overlap_several_parked"]++
+	}
+	if len(parked) == 0 {
+		r.probes["overlap_nothing_parked"]++
+	}
+	// the order of release: as named, the rest in leg order
+	var order []int
+	isParked, taken := map[int]bool{}, map[int]bool{}
+	for _, j := range parked {
+		isParked[j] = true
+	}
+	for _, j := range a.Release {
+		if isParked[j] && !taken[j] {
+			taken[j] = true
+			order = append(order, j)
+		}
+	}
+	for _, j := range parked {
+		if !taken[j] {
+			order = append(order, j)
+		}
+	}
+	if len(order) >= 2 && order[0] != parked[0] {
+		r.probes["overlap_released_in_other_order"]++
+	}
+	for _, j := range order {
+		simkit.Heartbeat.Add(1)
+		st := legs[j].st
+		r.fs.cur = st
+		st.resume <- struct{}{}
+		if ev := <-st.event; ev != evDone {
+			r.harnessErr = "a leg parked twice"
+		}
+		r.fs.cur = nil
+		r.logf("step %d overlap leg %d released, returned -> %s%s", i, j, st.res, r.errText(st.res))
+	}
+	for j, lr := range legs {
+		if lr.st.panicv != "" && r.harnessErr == "" {
+			r.harnessErr = fmt.Sprintf("overlap leg %d: %s", j, lr.st.panicv)
+		}
+	}
+	if r.harnessErr != "" {
+		return
+	}
+	// ---- the verdict: a call is the same whatever else goes on
+	for j, lr := range legs {
+		if lr.st.parked {
+			r.probes["overlap_legs_parked"]++
+		} else if lr.leg.Park > 0 {
+			r.probes["overlap_park_point_not_reached"]++
+		}
+		if lr.st.ops != lr.n {
+			r.probes["overlap_leg_other_op_count"]++
+		}
+		if same(lr.alone, lr.st.res) {
+			continue
+		}
+		how := "ran while another call was held in the file system"
+		if lr.st.parked {
+			how = "was held in the file system while another call ran"
+		}
+		r.violate(invSameEachCall, "a call that overlaps another call on the same converter differs from the same call made alone",
+			"leg %d, sources %q, %s: alone %s, overlapping %s", j, lr.leg.Sources, how, lr.alone, lr.st.res)
+		r.judge(lr.leg.Sources, lr.models, lr.st.res, true)
 	}
 }
 
@@ -357,6 +641,14 @@ func (r *run) call(i int, sources []string) {
 			return
 		}
 		models = append(models, m)
+	}
+	r.afterEdit(models)
+	if r.fs.limit > 0 {
+		for _, m := range models {
+			if m.isDir && m.parts > r.fs.limit {
+				r.probes["eligible_files_exceed_fd_budget"]++
+			}
+		}
 	}
 	key := strings.Join(sources, "\x00")
 	first := r.from(sources)
